@@ -313,6 +313,37 @@ func (cr *cliReplayer) runConcrete(j *Job, m *ConcreteModel, aid string) *Native
 	if a, b := snapshotDir(dA), snapshotDir(dB); a != b {
 		return fail(fmt.Sprintf("file system differs for gtree %s: cli {%s}, library {%s}", strings.Join(args, " "), a, b))
 	}
+	// mkdir (with or without --dry-run) into a target in which the document's root exists already: same verdict, same
+	// output, same file system as the library call the command stands for
+	if sc.Cmd == "mkdir" && !libFails && !openFails {
+		dE, dF := filepath.Join(work, "cli-exists"), filepath.Join(work, "ref-exists")
+		pre := func(dir string) error {
+			if err := setup(dir); err != nil {
+				return err
+			}
+			base := dir
+			if sc.TargetDir != "" {
+				base = filepath.Join(dir, sc.TargetDir)
+			}
+			return os.MkdirAll(filepath.Join(base, "root"), 0o755)
+		}
+		if pre(dE) == nil && pre(dF) == nil {
+			codeA, outA, _ := cr.exec(cr.bin, dE, stdinDoc, args...)
+			codeB, outB, _ := cr.exec(cr.ref, dF, stdinDoc, string(scj))
+			res.Asserts["cli-vs-library-root-exists"]++
+			if codeA >= 0 && codeB >= 0 && codeB < 97 {
+				if (codeA == 0) != (codeB == 0) {
+					return fail(fmt.Sprintf("exit status when the root exists already: gtree %s exited %d, the library call returned %s", strings.Join(args, " "), codeA, map[bool]string{true: "nil", false: "an error"}[codeB == 0]))
+				}
+				if outA != outB {
+					return fail(fmt.Sprintf("stdout differs when the root exists already for gtree %s: cli %q, library %q", strings.Join(args, " "), clip(outA), clip(outB)))
+				}
+				if a, b := snapshotDir(dE), snapshotDir(dF); a != b {
+					return fail(fmt.Sprintf("file system differs when the root exists already for gtree %s: cli {%s}, library {%s}", strings.Join(args, " "), a, b))
+				}
+			}
+		}
+	}
 	// the same flags on a well-formed document with an unwritable stdout: the exit status must still be the
 	// library's verdict (the library reports the write error)
 	if sc.Cmd == "output" || sc.DryRun {
